@@ -123,6 +123,13 @@ CLAIMED["C26"] = dict(
     ref="DESIGN.md 4/C26",
 )
 
+CLAIMED["C25"] = dict(
+    technique="must/may event flow over BitstreamValidator.run (status returned at each exit and what dominates it), handler-order check, exception-translation check around the creation of picture files beneath the generic handler (model of what open() may raise for a user-chosen name), def-use wiring of the output callback, its file counter and file_format.write's parameters",
+    text="Printed text and written bytes are behaviour. Decided on all paths: 0 is returned only after parse_stream returned normally, 2 only by the ConformanceError handler after the located report (explain + offending offset or current position) was printed, 3 only by the generic handler, which is last; errors creating picture files are translated to a handled error with its own status; the callback is the one wired into State, numbers files from 0 in call order and passes its arguments to file_format.write by role; write produces one .json + one .raw. Status 3 from the decoder's own code is C02's claim.",
+    note="One recorded finding (K4: NUL in the formatted --output name); one repaired defect (D6, OSError from picture files reported as internal error). Trusted: model of open()'s exceptions.",
+    ref="DESIGN.md 4/C25",
+)
+
 CLAIMED["C09"] = dict(
     technique="must/may event flow over picture_decode (ordering of inverse transform, clip, offset before the output callback; single invocation; argument wiring) and call-site placement of picture_decode in parse_sequence; completion-flag provenance",
     text="Sample ranges and dimensions come from spec-pinned arithmetic and are not decided. Decided on all paths: what reaches the output callback has been transformed, clipped and offset in that order; the callback runs at most once per decoded picture with the right arguments; the picture number is the coded one; a picture is decoded exactly once per picture data unit and once per completed fragmented picture.",
